@@ -8,6 +8,7 @@ import dets
 import gen
 from common import Outcome, rng_for, VERIF
 
+RULE_ADDENDA = ('large warm-ups (2 100-2 600 instances) for every class; a third of the runs fed NumPy scalars (int64/float64/uint8/int8)')
 LEVEL = "proof"
 SHRINK_KEYS = ("ops",)
 EXPLANATION = ("Theorems (Lean kernel) about the model M of all 13 detectors: warm-up, flag exclusivity, reset=init for every "
